@@ -150,6 +150,14 @@ func init() {
 			o.name = "big"
 			return Ptr{obj: o}
 		},
+		"BigSet": func(m *M, fn *ssa.Function, a []Value) Value {
+			p := m.force(a[0]).(Ptr)
+			if p.obj == nil {
+				panic(goPanic{msg: "invalid memory address or nil pointer dereference (big.Int)"})
+			}
+			*m.slot(p) = m.force(a[1]).(Int)
+			return nil
+		},
 		"BigVal": func(m *M, fn *ssa.Function, a []Value) Value { return bigVal(m, a[0]) },
 		"BigEq": func(m *M, fn *ssa.Function, a []Value) Value {
 			return m.valEq(bigVal(m, a[0]), bigVal(m, a[1]))
@@ -168,6 +176,19 @@ func init() {
 				panic(engineErr("Havoc without type argument"))
 			}
 			return m.force(Lazy{ta[0], symName(m, a[0])})
+		},
+		"HavocInto": func(m *M, fn *ssa.Function, a []Value) Value {
+			i := m.resolveIface(m.force(a[0]).(Iface))
+			pt, ok := i.t.Underlying().(*types.Pointer)
+			if !ok {
+				panic(engineErr("HavocInto needs a pointer"))
+			}
+			p := i.v.(Ptr)
+			if p.obj == nil {
+				panic(goPanic{msg: "invalid memory address or nil pointer dereference (decode into nil)"})
+			}
+			m.store(p, Lazy{pt.Elem(), strArg(m, a[1])})
+			return nil
 		},
 		"Assume": func(m *M, fn *ssa.Function, a []Value) Value {
 			if m.merging > 0 {
@@ -305,11 +326,16 @@ func bigVal(m *M, v Value) Int {
 	if p.obj == nil {
 		panic(goPanic{msg: "invalid memory address or nil pointer dereference (big.Int)"})
 	}
-	x, ok := m.force(p.obj.v).(Int)
+	sl := m.slot(p)
+	x, ok := m.force(*sl).(Int)
 	if !ok {
+		if ag, isAgg := (*sl).(Agg); isAgg && len(ag) == 2 {
+			if s, isS := m.force(ag[1]).(Slice); isS && (s.isNil || s.ln == 0) {
+				return cInt(64, false, 0) // new(big.Int): zero
+			}
+		}
 		panic(engineErr("big.Int with concrete representation reached the abstract model"))
 	}
-	p.obj.v = x
 	return x
 }
 
@@ -407,6 +433,18 @@ func init() {
 			}
 			return m.atomStr(fmt.Sprintf("join#%d", m.seq("join")))
 		},
+		"(encoding/asn1.ObjectIdentifier).String": func(m *M, fn *ssa.Function, a []Value) Value {
+			sl := m.force(a[0]).(Slice)
+			var parts []string
+			for _, e := range m.sliceElems(sl) {
+				x := m.force(e).(Int)
+				if !x.conc {
+					return m.atomStr(fmt.Sprintf("oidtext#%d", m.seq("oidtext")))
+				}
+				parts = append(parts, strconv.FormatInt(x.signed(), 10))
+			}
+			return cStr(strings.Join(parts, "."))
+		},
 		"strconv.Itoa":                   func(m *M, fn *ssa.Function, a []Value) Value { return itoa(m, a[0]) },
 		"internal/bytealg.IndexByteString": func(m *M, fn *ssa.Function, a []Value) Value { return indexByte(m, m.force(a[0]).(Str), a[1]) },
 		"internal/bytealg.IndexByte": func(m *M, fn *ssa.Function, a []Value) Value {
@@ -432,8 +470,8 @@ func init() {
 		"runtime.SetFinalizer":           nop,
 		"(*math/big.Int).Cmp": func(m *M, fn *ssa.Function, a []Value) Value {
 			x, y := m.force(a[0]).(Ptr), m.force(a[1]).(Ptr)
-			if x.obj != nil && x.obj == y.obj {
-				return cI(0)
+			if ptrSame(x, y) {
+				return cI(0) // also for two nil operands, like the real method
 			}
 			xv, yv := bigVal(m, x), bigVal(m, y) // nil operands panic like the real method
 			if xv.conc && yv.conc {
